@@ -19,6 +19,7 @@ CONSTANTS MAXR = %(maxr)d
  W = %(w)d
  H = %(h)d
  SIM = %(sim)s
+ VARS = {%(vars)s}
 VIEW ViewSt
 INVARIANT InvAll
 INVARIANT InvCreate
@@ -30,7 +31,7 @@ CHECK_DEADLOCK FALSE
 
 
 def explore(work, name, sim=None, **kw):
-    d = dict(maxr=3, maxc=3, depth=2, pats="1", size="FALSE", w=1000, h=700)
+    d = dict(maxr=3, maxc=3, depth=2, pats="1", size="FALSE", w=1000, h=700, vars="0")
     d.update(kw)
     d["sim"] = "TRUE" if sim else "FALSE"
     cfg = os.path.join(work, "MC_Table_%s.cfg" % name)
@@ -85,11 +86,13 @@ def main() -> int:
     if thorough:
         cfgs = [("s44", dict(maxr=4, maxc=4, depth=2, pats="1,2"), None, True),
                 ("s33", dict(maxr=3, maxc=3, depth=2, pats="3,4,5", size="TRUE"), None, True),
+                ("doc", dict(maxr=3, maxc=3, depth=2, pats="4,5", vars="1,2,3"), None, True),
                 ("sim", dict(maxr=12, maxc=12, depth=10, pats="1,2,4", size="TRUE", w=9144000, h=6858001), "num=400", False)]
     else:
         cfgs = [("s33", dict(maxr=3, maxc=3, depth=2, pats="1,4,5"), None, True),
                 ("s44", dict(maxr=4, maxc=4, depth=1, pats="2", size="TRUE"), None, True),
-                ("sim", dict(maxr=12, maxc=12, depth=10, pats="1,4", size="TRUE", w=9144000, h=6858001), "num=40", False)]
+                ("doc", dict(maxr=2, maxc=3, depth=1, pats="4", vars="1,2,3"), None, True),
+                ("sim", dict(maxr=12, maxc=12, depth=10, pats="1,4", size="TRUE", w=9144000, h=6858001, vars="0,1,3"), "num=40", False)]
     states = transitions = 0
     per_cfg, actions = {}, {}
     jobs = []
